@@ -104,7 +104,7 @@ stats! {
     p_script_legal_actions, p_unequal_inout_group, p_parallel_edges, p_self_loop_clone, p_dtor_weak_obs,
     p_known_finding, p_other_violation, p_child_restarts, p_pages_used_max, p_release_frames,
     p_c12_after_consume_ops, p_c13_elided_then_collect, p_tail_group, p_raw_ghosts,
-    p_order_pairs, p_typed_programs, p_c15_visit_checks, p_nested_obligation_checks, p_c06_nested_count_checks, f_downgrade_dead_peer_in_dtor, f_downgrade_live_in_dtor,
+    p_order_pairs, p_layout_skipped_not_fully_recorded, p_typed_programs, p_c15_visit_checks, p_nested_obligation_checks, p_c06_nested_count_checks, f_downgrade_dead_peer_in_dtor, f_downgrade_live_in_dtor,
     c16_scenarios, c16_clone_aborted_dead, c16_clone_aborted_doomed, c16_clone_live_ok, c16_clone_unreachable_either, c16_drop_ok, c16_noop,
 }
 
